@@ -8,7 +8,10 @@ LEVEL = "exploration"
 TECHNIQUE = ("bounded exhaustive enumeration of 3.11-3.13 location tables (all 16 entry codes x lengths x varint sizes x signs, "
              "sequences <= 3) and exception tables (all 4-tuples over 7 boundary values = 1- to 4-byte varints, pairs), "
              "installed in real code objects by each CPython and decoded by xdis's parsers, compared with co_positions(), "
-             "co_lines() and dis._parse_exception_table; plus all compiled G-programs for 3.11-3.13")
+             "co_lines() and dis._parse_exception_table; plus all compiled G-programs for 3.11-3.13; plus every sequence "
+             "(<= 3 quick, <= 4 thorough) over 3 observers and 7 mutators (replace of first line / location table / exception "
+             "table, to_native and back, freeze) on a Code311 object, against the host's own code object taken through the "
+             "same replacements, on hosts 3.11, 3.12, 3.13")
 TEXT = ("Every table of the bounded space is carried by a genuine code object of 3.11, 3.12 and 3.13, read by xdis's "
         "unmarshaller into Code311, and parse_exception_table / Bytecode.exception_entries / the ExceptionTable: listing "
         "lines, co_lines() and co_positions() (expanded per code unit) must equal what that CPython reports.")
@@ -21,7 +24,7 @@ VERS = ["3.11", "3.12", "3.13"]
 
 
 def bounds(tier):
-    return {"location_sequence_len": 3, "exception_values": [0, 1, 63, 64, 4095, 4096, 2 ** 18], "exception_pairs_over": 3 if tier == "quick" else 4,
+    return {"operation_sequence_depth": 3 if tier == "quick" else 4, "location_sequence_len": 3, "exception_values": [0, 1, 63, 64, 4095, 4096, 2 ** 18], "exception_pairs_over": 3 if tier == "quick" else 4,
             "program_statements_k": 1 if tier == "quick" else 2}
 
 
@@ -31,7 +34,49 @@ def prepare(tier):
             "progs": common.datasets("progs", VERS, k)}
 
 
+OPSEQ_PROGS = {
+    "try_loop": "def f(a, b):\n    for i in a:\n        try:\n            b = b + i * (a[0] -\n                         i)\n        except (ValueError, KeyError) as e:\n            b = e\n        finally:\n            a = None\n    return b\n",
+    "gen_with": "def g(cm, xs):\n    with cm as c:\n        for x in xs:\n            yield (x,\n                   c)\n    return [y for y in xs if y]\n",
+    "gap": "def h(p):\n    q = p\n" + "\n" * 140 + "    return (q +\n\n\n            p)\n",
+}
+OBSERVERS = ["positions", "lines", "exc"]
+MUTATORS = ["first+1000", "first=1", "table=alt", "table=orig", "exctable=empty", "to_native+back", "freeze"]
+
+
+def hosts(tier):
+    return ["3.12", "3.11", "3.13"]
+
+
+def workers_for_host(tier, host):
+    return 10 if host == "3.12" else 3
+
+
+def _opseqs(tier):
+    import itertools
+
+    depth = 3 if tier == "quick" else 4
+    alpha = OBSERVERS + MUTATORS
+    for d in range(1, depth + 1):
+        for seq in itertools.product(alpha, repeat=d):
+            if seq[-1] in OBSERVERS:
+                continue    # every sequence ends with a full observation anyway
+            if not any(o in MUTATORS for o in seq):
+                continue
+            yield seq
+
+
 def cases(plan, tier, shard, nshards, host):
+    import sys
+
+    # operation sequences on a Code311 object against the host's own code object (every 3.11+ host)
+    n = 0
+    for pid in sorted(OPSEQ_PROGS):
+        for seq in _opseqs(tier):
+            n += 1
+            if n % nshards == shard:
+                yield {"kind": "opseq", "ver": list(sys.version_info[:2]), "id": pid, "seq": list(seq)}
+    if host != "3.12":
+        return
     for v in VERS:
         for idx, rec in common.read_dataset(plan["lt"][v], shard, nshards):
             if idx >= 0:
@@ -47,10 +92,14 @@ def cases(plan, tier, shard, nshards, host):
 
 
 def case_key(c):
+    if c["kind"] == "opseq":
+        return "opseq:%s:%s:%s" % (c["ver"], c["id"], ">".join(c["seq"]))
     return "%s:%s:%s" % (c["kind"], c["ver"], c.get("table") or c.get("id")) + str(c.get("firstlineno", ""))
 
 
 def describe(c):
+    if c["kind"] == "opseq":
+        return {"kind": "opseq", "host": c["ver"], "program": c["id"], "sequence": c["seq"]}
     if c["kind"] == "prog":
         return {"kind": "prog", "version": c["ver"], "program": c["id"]}
     d = {"kind": c["kind"], "version": c["ver"], "table_hex": c["table"][:60]}
@@ -136,7 +185,78 @@ def _cmp_exc(ctx, vtag, where, co, opc, entries, small):
         ctx.violation("%s:Bytecode.exception_entries:raises:%s" % (vtag, type(e).__name__), "%r (%s)" % (e, where))
 
 
+def _native_obs(co):
+    import dis
+
+    return {"colines": [list(x) for x in co.co_lines()], "positions": [list(x) for x in co.co_positions()],
+            "exc": [[e.start, e.end, e.target, e.depth, bool(e.lasti)] for e in dis._parse_exception_table(co)]}
+
+
+def _opseq(case, ctx):
+    """explicit enumeration of operation sequences (observers and mutators) on a portable Code311 object; the reference
+    model is the host's own immutable code object taken through the same replacements"""
+    import sys
+    import types
+
+    from xdis.codetype import codeType2Portable
+
+    host = tuple(sys.version_info[:2])
+    vtag = "%d.%d" % host
+    opc = xinst.opc_for(host)
+    src = OPSEQ_PROGS[case["id"]]
+    alt_src = src.replace("\n", "\n\n").replace(" = ", "  =   ")
+    fn = [c for c in compile(src, "<opseq>", "exec").co_consts if isinstance(c, types.CodeType)][0]
+    alt = [c for c in compile(alt_src, "<opseq>", "exec").co_consts if isinstance(c, types.CodeType)][0]
+    if alt.co_code != fn.co_code:
+        ctx.count("opseq_alt_table_unusable")
+        alt = fn
+    nat = fn
+    p0 = codeType2Portable(fn)
+    p = p0
+    where0 = "%s after %%s" % case["id"]
+    ctx.count("opseq_sequences")
+    done = []
+    for op in case["seq"]:
+        done.append(op)
+        where = where0 % ">".join(done)
+        ctx.count("opseq_steps")
+        try:
+            if op == "positions":
+                _cmp_loc(ctx, vtag, "opseq", where, p, [list(x) for x in nat.co_lines()], [list(x) for x in nat.co_positions()])
+            elif op == "lines":
+                list(p.co_lines())
+            elif op == "exc":
+                _cmp_exc(ctx, vtag, where, p, opc, _native_obs(nat)["exc"], True)
+            elif op == "first+1000":
+                p, nat = p.replace(co_firstlineno=p.co_firstlineno + 1000), nat.replace(co_firstlineno=nat.co_firstlineno + 1000)
+            elif op == "first=1":
+                p, nat = p.replace(co_firstlineno=1), nat.replace(co_firstlineno=1)
+            elif op == "table=alt":
+                p, nat = p.replace(co_linetable=alt.co_linetable), nat.replace(co_linetable=alt.co_linetable)
+            elif op == "table=orig":
+                p, nat = p.replace(co_linetable=fn.co_linetable), nat.replace(co_linetable=fn.co_linetable)
+            elif op == "exctable=empty":
+                p, nat = p.replace(co_exceptiontable=b""), nat.replace(co_exceptiontable=b"")
+            elif op == "to_native+back":
+                p = codeType2Portable(p.to_native())
+            elif op == "freeze":
+                p = p.freeze()
+        except Exception as e:
+            ctx.violation("%s:opseq:raises:%s:%s" % (vtag, type(e).__name__, op), "%r (%s)" % (e, where))
+            return
+    where = where0 % ">".join(done)
+    ref = _native_obs(nat)
+    _cmp_loc(ctx, vtag, "opseq", where, p, ref["colines"], ref["positions"])
+    _cmp_exc(ctx, vtag, where, p, opc, ref["exc"], True)
+    # the object the sequence started from still answers as the untouched native object does
+    ref0 = _native_obs(fn)
+    _cmp_loc(ctx, vtag, "opseq-original", where, p0, ref0["colines"], ref0["positions"])
+    _cmp_exc(ctx, vtag, where + " (original)", p0, opc, ref0["exc"], True)
+
+
 def run_case(case, ctx):
+    if case["kind"] == "opseq":
+        return _opseq(case, ctx)
     ver = tuple(case["ver"])
     vtag = "%d.%d" % ver
     opc = xinst.opc_for(ver)
